@@ -211,16 +211,7 @@ func RunParent(a ParentArgs) int {
 	p := a.Prop
 	id := p.ID()
 	levels, skipped := RunnableLevels()
-	if a.Tier == "quick" {
-		// level 2 is never distinguished from 1 by any dispatch site; thorough confirms it
-		var l2 []int
-		for _, l := range levels {
-			if l != 2 {
-				l2 = append(l2, l)
-			}
-		}
-		levels = l2
-	}
+
 	if a.Impl == "stdlib" {
 		levels = []int{0}
 	}
@@ -615,9 +606,6 @@ func (j *Joined) finish(a ParentArgs, p Prop, wallS float64) int {
 		"known_findings_seen": sigs,
 		"unlisted_violations": len(unlisted),
 		"inconclusive":        j.Inconclusive,
-	}
-	if j.Tier == "quick" {
-		j.Skipped["2"] = "quick tier: level 2 takes the same dispatch branches as level 1; run in thorough"
 	}
 	if len(j.Samples) == 0 {
 		cov["samples"] = []interface{}{"no sample recorded"}
